@@ -113,6 +113,7 @@ def run_impl(hist, cap=1):
 
     async def main(loop):
         net = vloop.Net(loop, [("connect", 0)])
+        net.default = ("hang",)      # reconnect attempts after the abandonment never get through (C10's business)
         log = []
         eps = []
         t0 = [0]
@@ -262,9 +263,10 @@ def run_impl(hist, cap=1):
                 await settle()
                 steps.append(dict(out=collect(), pending=sorted(r for r, t in tasks.items() if not t.done()),
                                   closing=bool(tr.is_closing()), raised=len(loop.errors) > nerr, now=now()))
-            # hang detection: 31 s of silence
-            await vloop.sleep_ticks(TAIL)
-            await settle()
+            # hang detection: 31 s of silence (nothing can happen when no caller is pending)
+            if any(not t.done() for t in tasks.values()):
+                await vloop.sleep_ticks(TAIL)
+                await settle()
             hang = sorted(r for r, t in tasks.items() if not t.done())
             tail_out = collect()
             for t in tasks.values():
